@@ -137,8 +137,7 @@ impl OpenTelemetryReporter {
                     let instrumentation_scope = self.instrumentation_scope.clone();
                     let start_time =
                         SystemTime::UNIX_EPOCH + Duration::from_nanos(begin_time_unix_ns);
-                    let end_time = SystemTime::UNIX_EPOCH
-                        + Duration::from_nanos(begin_time_unix_ns + duration_ns);
+                    let end_time = start_time + Duration::from_nanos(duration_ns);
                     let attributes = map_props_to_kvs(properties);
                     let events = map_events(events);
                     SpanData {
